@@ -47,9 +47,12 @@ func c14initMore() {
 		enc: func(f []c14field) ([]byte, error) {
 			return (&thist.BlockProofHistoricalHashesAccumulator{Proof: f[0].l}).MarshalSSZ()
 		},
-		dec: func(b []byte) ([]c14field, error) {
+		dec2: func(bs ...[]byte) ([]c14field, error) {
 			var v thist.BlockProofHistoricalHashesAccumulator
-			err := v.UnmarshalSSZ(b)
+			var err error
+			for _, b := range bs { // decoded one after the other into the SAME object
+				err = v.UnmarshalSSZ(b)
+			}
 			return []c14field{{l: v.Proof}}, err
 		}})
 	p4 := func(name string, c1, c2 int) *c14type {
@@ -60,9 +63,12 @@ func c14initMore() {
 	t.enc = func(f []c14field) ([]byte, error) {
 		return (&thist.BlockProofHistoricalRoots{BeaconBlockProof: f[0].l, BeaconBlockRoot: f[1].b, ExecutionBlockProof: f[2].l, Slot: f[3].n}).MarshalSSZ()
 	}
-	t.dec = func(b []byte) ([]c14field, error) {
+	t.dec2 = func(bs ...[]byte) ([]c14field, error) {
 		var v thist.BlockProofHistoricalRoots
-		err := v.UnmarshalSSZ(b)
+		var err error
+		for _, b := range bs { // decoded one after the other into the SAME object
+			err = v.UnmarshalSSZ(b)
+		}
 		return []c14field{{l: v.BeaconBlockProof}, {b: v.BeaconBlockRoot}, {l: v.ExecutionBlockProof}, {n: v.Slot}}, err
 	}
 	c14reg(t)
@@ -70,9 +76,12 @@ func c14initMore() {
 	t.enc = func(f []c14field) ([]byte, error) {
 		return (&thist.BlockProofHistoricalSummariesCapella{BeaconBlockProof: f[0].l, BeaconBlockRoot: f[1].b, ExecutionBlockProof: f[2].l, Slot: f[3].n}).MarshalSSZ()
 	}
-	t.dec = func(b []byte) ([]c14field, error) {
+	t.dec2 = func(bs ...[]byte) ([]c14field, error) {
 		var v thist.BlockProofHistoricalSummariesCapella
-		err := v.UnmarshalSSZ(b)
+		var err error
+		for _, b := range bs { // decoded one after the other into the SAME object
+			err = v.UnmarshalSSZ(b)
+		}
 		return []c14field{{l: v.BeaconBlockProof}, {b: v.BeaconBlockRoot}, {l: v.ExecutionBlockProof}, {n: v.Slot}}, err
 	}
 	c14reg(t)
@@ -80,9 +89,12 @@ func c14initMore() {
 	t.enc = func(f []c14field) ([]byte, error) {
 		return (&thist.BlockProofHistoricalSummariesDeneb{BeaconBlockProof: f[0].l, BeaconBlockRoot: f[1].b, ExecutionBlockProof: f[2].l, Slot: f[3].n}).MarshalSSZ()
 	}
-	t.dec = func(b []byte) ([]c14field, error) {
+	t.dec2 = func(bs ...[]byte) ([]c14field, error) {
 		var v thist.BlockProofHistoricalSummariesDeneb
-		err := v.UnmarshalSSZ(b)
+		var err error
+		for _, b := range bs { // decoded one after the other into the SAME object
+			err = v.UnmarshalSSZ(b)
+		}
 		return []c14field{{l: v.BeaconBlockProof}, {b: v.BeaconBlockRoot}, {l: v.ExecutionBlockProof}, {n: v.Slot}}, err
 	}
 	c14reg(t)
@@ -91,9 +103,12 @@ func c14initMore() {
 		enc: func(f []c14field) ([]byte, error) {
 			return (&thist.BlockHeaderWithProof{Header: f[0].b, Proof: f[1].b}).MarshalSSZ()
 		},
-		dec: func(b []byte) ([]c14field, error) {
+		dec2: func(bs ...[]byte) ([]c14field, error) {
 			var v thist.BlockHeaderWithProof
-			err := v.UnmarshalSSZ(b)
+			var err error
+			for _, b := range bs { // decoded one after the other into the SAME object
+				err = v.UnmarshalSSZ(b)
+			}
 			return []c14field{{b: v.Header}, {b: v.Proof}}, err
 		}})
 	c14reg(&c14type{name: "FindEphKey", tableAt: -1,
@@ -101,9 +116,12 @@ func c14initMore() {
 		enc: func(f []c14field) ([]byte, error) {
 			return (&thist.FindContentEphemeralHeadersKey{BlockHash: f[0].b, AncestorCount: uint8(f[1].n)}).MarshalSSZ()
 		},
-		dec: func(b []byte) ([]c14field, error) {
+		dec2: func(bs ...[]byte) ([]c14field, error) {
 			var v thist.FindContentEphemeralHeadersKey
-			err := v.UnmarshalSSZ(b)
+			var err error
+			for _, b := range bs { // decoded one after the other into the SAME object
+				err = v.UnmarshalSSZ(b)
+			}
 			return []c14field{{b: v.BlockHash}, {n: uint64(v.AncestorCount)}}, err
 		}})
 	c14reg(&c14type{name: "EphPayload", tableAt: 0,
@@ -111,9 +129,12 @@ func c14initMore() {
 		enc: func(f []c14field) ([]byte, error) {
 			return (&thist.EphemeralHeaderPayload{Payload: f[0].l}).MarshalSSZ()
 		},
-		dec: func(b []byte) ([]c14field, error) {
+		dec2: func(bs ...[]byte) ([]c14field, error) {
 			var v thist.EphemeralHeaderPayload
-			err := v.UnmarshalSSZ(b)
+			var err error
+			for _, b := range bs { // decoded one after the other into the SAME object
+				err = v.UnmarshalSSZ(b)
+			}
 			return []c14field{{l: v.Payload}}, err
 		}})
 	c14reg(&c14type{name: "OfferEphKey", tableAt: -1,
@@ -121,25 +142,34 @@ func c14initMore() {
 		enc: func(f []c14field) ([]byte, error) {
 			return (&thist.OfferEphemeralHeaderKey{BlockHash: f[0].b}).MarshalSSZ()
 		},
-		dec: func(b []byte) ([]c14field, error) {
+		dec2: func(bs ...[]byte) ([]c14field, error) {
 			var v thist.OfferEphemeralHeaderKey
-			err := v.UnmarshalSSZ(b)
+			var err error
+			for _, b := range bs { // decoded one after the other into the SAME object
+				err = v.UnmarshalSSZ(b)
+			}
 			return []c14field{{b: v.BlockHash}}, err
 		}})
 	c14reg(&c14type{name: "OfferEphHeader", tableAt: -1, fixOffs: []int{0},
 		fields: []c14fs{{name: "Header", kind: 'B', max: 2048}},
 		enc:    func(f []c14field) ([]byte, error) { return (&thist.OfferEphemeralHeader{Header: f[0].b}).MarshalSSZ() },
-		dec: func(b []byte) ([]c14field, error) {
+		dec2: func(bs ...[]byte) ([]c14field, error) {
 			var v thist.OfferEphemeralHeader
-			err := v.UnmarshalSSZ(b)
+			var err error
+			for _, b := range bs { // decoded one after the other into the SAME object
+				err = v.UnmarshalSSZ(b)
+			}
 			return []c14field{{b: v.Header}}, err
 		}})
 	c14reg(&c14type{name: "Receipts", tableAt: 0,
 		fields: []c14fs{{name: "Receipts", kind: 'L', max: 16384, itemMax: 134217728, noItemOver: true}},
 		enc:    func(f []c14field) ([]byte, error) { return (&hnet.PortalReceipts{Receipts: f[0].l}).MarshalSSZ() },
-		dec: func(b []byte) ([]c14field, error) {
+		dec2: func(bs ...[]byte) ([]c14field, error) {
 			var v hnet.PortalReceipts
-			err := v.UnmarshalSSZ(b)
+			var err error
+			for _, b := range bs { // decoded one after the other into the SAME object
+				err = v.UnmarshalSSZ(b)
+			}
 			return []c14field{{l: v.Receipts}}, err
 		}})
 	c14reg(&c14type{name: "HeaderRecord", tableAt: -1,
@@ -147,9 +177,12 @@ func c14initMore() {
 		enc: func(f []c14field) ([]byte, error) {
 			return (&hnet.HeaderRecord{BlockHash: f[0].b, TotalDifficulty: f[1].b}).MarshalSSZ()
 		},
-		dec: func(b []byte) ([]c14field, error) {
+		dec2: func(bs ...[]byte) ([]c14field, error) {
 			var v hnet.HeaderRecord
-			err := v.UnmarshalSSZ(b)
+			var err error
+			for _, b := range bs { // decoded one after the other into the SAME object
+				err = v.UnmarshalSSZ(b)
+			}
 			return []c14field{{b: v.BlockHash}, {b: v.TotalDifficulty}}, err
 		}})
 	// ---- beacon content keys (fastssz)
@@ -158,9 +191,12 @@ func c14initMore() {
 		enc: func(f []c14field) ([]byte, error) {
 			return (&tbeacon.LightClientUpdateKey{StartPeriod: f[0].n, Count: f[1].n}).MarshalSSZ()
 		},
-		dec: func(b []byte) ([]c14field, error) {
+		dec2: func(bs ...[]byte) ([]c14field, error) {
 			var v tbeacon.LightClientUpdateKey
-			err := v.UnmarshalSSZ(b)
+			var err error
+			for _, b := range bs { // decoded one after the other into the SAME object
+				err = v.UnmarshalSSZ(b)
+			}
 			return []c14field{{n: v.StartPeriod}, {n: v.Count}}, err
 		}})
 	c14reg(&c14type{name: "LcBootstrapKey", tableAt: -1,
@@ -168,9 +204,12 @@ func c14initMore() {
 		enc: func(f []c14field) ([]byte, error) {
 			return (&tbeacon.LightClientBootstrapKey{BlockHash: f[0].b}).MarshalSSZ()
 		},
-		dec: func(b []byte) ([]c14field, error) {
+		dec2: func(bs ...[]byte) ([]c14field, error) {
 			var v tbeacon.LightClientBootstrapKey
-			err := v.UnmarshalSSZ(b)
+			var err error
+			for _, b := range bs { // decoded one after the other into the SAME object
+				err = v.UnmarshalSSZ(b)
+			}
 			return []c14field{{b: v.BlockHash}}, err
 		}})
 	c14reg(&c14type{name: "LcFinalityKey", tableAt: -1,
@@ -178,9 +217,12 @@ func c14initMore() {
 		enc: func(f []c14field) ([]byte, error) {
 			return (&tbeacon.LightClientFinalityUpdateKey{FinalizedSlot: f[0].n}).MarshalSSZ()
 		},
-		dec: func(b []byte) ([]c14field, error) {
+		dec2: func(bs ...[]byte) ([]c14field, error) {
 			var v tbeacon.LightClientFinalityUpdateKey
-			err := v.UnmarshalSSZ(b)
+			var err error
+			for _, b := range bs { // decoded one after the other into the SAME object
+				err = v.UnmarshalSSZ(b)
+			}
 			return []c14field{{n: v.FinalizedSlot}}, err
 		}})
 	c14reg(&c14type{name: "LcOptimisticKey", tableAt: -1,
@@ -188,9 +230,12 @@ func c14initMore() {
 		enc: func(f []c14field) ([]byte, error) {
 			return (&tbeacon.LightClientOptimisticUpdateKey{OptimisticSlot: f[0].n}).MarshalSSZ()
 		},
-		dec: func(b []byte) ([]c14field, error) {
+		dec2: func(bs ...[]byte) ([]c14field, error) {
 			var v tbeacon.LightClientOptimisticUpdateKey
-			err := v.UnmarshalSSZ(b)
+			var err error
+			for _, b := range bs { // decoded one after the other into the SAME object
+				err = v.UnmarshalSSZ(b)
+			}
 			return []c14field{{n: v.OptimisticSlot}}, err
 		}})
 	// ---- state network (ztyp)
@@ -202,9 +247,12 @@ func c14initMore() {
 			v := state.AccountTrieNodeKey{Path: state.Nibbles{Nibbles: f[0].b}, NodeHash: root32(f[1].b)}
 			return c14zser(v.Serialize)
 		},
-		dec: func(b []byte) ([]c14field, error) {
+		dec2: func(bs ...[]byte) ([]c14field, error) {
 			var v state.AccountTrieNodeKey
-			err := c14zdes(b, v.Deserialize)
+			var err error
+			for _, b := range bs { // decoded one after the other into the SAME object
+				err = c14zdes(b, v.Deserialize)
+			}
 			return []c14field{{b: v.Path.Nibbles}, {b: cp(v.NodeHash[:])}}, err
 		}})
 	c14reg(&c14type{name: "StorageTrieNodeKey", tableAt: -1, fixOffs: []int{32}, fields: []c14fs{b32("AddressHash"), nib("Path"), b32("NodeHash")},
@@ -212,9 +260,12 @@ func c14initMore() {
 			v := state.ContractStorageTrieNodeKey{AddressHash: root32(f[0].b), Path: state.Nibbles{Nibbles: f[1].b}, NodeHash: root32(f[2].b)}
 			return c14zser(v.Serialize)
 		},
-		dec: func(b []byte) ([]c14field, error) {
+		dec2: func(bs ...[]byte) ([]c14field, error) {
 			var v state.ContractStorageTrieNodeKey
-			err := c14zdes(b, v.Deserialize)
+			var err error
+			for _, b := range bs { // decoded one after the other into the SAME object
+				err = c14zdes(b, v.Deserialize)
+			}
 			return []c14field{{b: cp(v.AddressHash[:])}, {b: v.Path.Nibbles}, {b: cp(v.NodeHash[:])}}, err
 		}})
 	c14reg(&c14type{name: "BytecodeKey", tableAt: -1, fields: []c14fs{b32("AddressHash"), b32("CodeHash")},
@@ -222,34 +273,46 @@ func c14initMore() {
 			v := state.ContractBytecodeKey{AddressHash: root32(f[0].b), CodeHash: root32(f[1].b)}
 			return c14zser(v.Serialize)
 		},
-		dec: func(b []byte) ([]c14field, error) {
+		dec2: func(bs ...[]byte) ([]c14field, error) {
 			var v state.ContractBytecodeKey
-			err := c14zdes(b, v.Deserialize)
+			var err error
+			for _, b := range bs { // decoded one after the other into the SAME object
+				err = c14zdes(b, v.Deserialize)
+			}
 			return []c14field{{b: cp(v.AddressHash[:])}, {b: cp(v.CodeHash[:])}}, err
 		}})
 	c14reg(&c14type{name: "TrieNode", tableAt: -1, fixOffs: []int{0}, fields: []c14fs{{name: "Node", kind: 'B', max: 1024}},
 		enc: func(f []c14field) ([]byte, error) {
 			return c14zser(state.TrieNode{Node: state.EncodedTrieNode(f[0].b)}.Serialize)
 		},
-		dec: func(b []byte) ([]c14field, error) {
+		dec2: func(bs ...[]byte) ([]c14field, error) {
 			var v state.TrieNode
-			err := c14zdes(b, v.Deserialize)
+			var err error
+			for _, b := range bs { // decoded one after the other into the SAME object
+				err = c14zdes(b, v.Deserialize)
+			}
 			return []c14field{{b: []byte(v.Node)}}, err
 		}})
 	c14reg(&c14type{name: "TrieProof", tableAt: 0, fields: []c14fs{prf("Proof")},
 		enc: func(f []c14field) ([]byte, error) { return c14zser(c14proof(f[0].l).Serialize) },
-		dec: func(b []byte) ([]c14field, error) {
+		dec2: func(bs ...[]byte) ([]c14field, error) {
 			var v state.TrieProof
-			err := c14zdes(b, v.Deserialize)
+			var err error
+			for _, b := range bs { // decoded one after the other into the SAME object
+				err = c14zdes(b, v.Deserialize)
+			}
 			return []c14field{{l: c14unproof(v)}}, err
 		}})
 	c14reg(&c14type{name: "BytecodeContainer", tableAt: -1, fixOffs: []int{0}, fields: []c14fs{{name: "Code", kind: 'B', max: 32768}},
 		enc: func(f []c14field) ([]byte, error) {
 			return c14zser(state.ContractBytecodeContainer{Code: state.ContractByteCode(f[0].b)}.Serialize)
 		},
-		dec: func(b []byte) ([]c14field, error) {
+		dec2: func(bs ...[]byte) ([]c14field, error) {
 			var v state.ContractBytecodeContainer
-			err := c14zdes(b, v.Deserialize)
+			var err error
+			for _, b := range bs { // decoded one after the other into the SAME object
+				err = c14zdes(b, v.Deserialize)
+			}
 			return []c14field{{b: []byte(v.Code)}}, err
 		}})
 	c14reg(&c14type{name: "AccountTrieNodeWithProof", tableAt: 36, fixOffs: []int{0}, fields: []c14fs{prf("Proof"), b32("BlockHash")},
@@ -257,9 +320,12 @@ func c14initMore() {
 			v := state.AccountTrieNodeWithProof{Proof: c14proof(f[0].l), BlockHash: root32(f[1].b)}
 			return c14zser(v.Serialize)
 		},
-		dec: func(b []byte) ([]c14field, error) {
+		dec2: func(bs ...[]byte) ([]c14field, error) {
 			var v state.AccountTrieNodeWithProof
-			err := c14zdes(b, v.Deserialize)
+			var err error
+			for _, b := range bs { // decoded one after the other into the SAME object
+				err = c14zdes(b, v.Deserialize)
+			}
 			return []c14field{{l: c14unproof(v.Proof)}, {b: cp(v.BlockHash[:])}}, err
 		}})
 	c14reg(&c14type{name: "StorageTrieNodeWithProof", tableAt: 40, fixOffs: []int{0, 4}, fields: []c14fs{prf("StorageProof"), prf("AccountProof"), b32("BlockHash")},
@@ -267,9 +333,12 @@ func c14initMore() {
 			v := state.ContractStorageTrieNodeWithProof{StorageProof: c14proof(f[0].l), AccountProof: c14proof(f[1].l), BlockHash: root32(f[2].b)}
 			return c14zser(v.Serialize)
 		},
-		dec: func(b []byte) ([]c14field, error) {
+		dec2: func(bs ...[]byte) ([]c14field, error) {
 			var v state.ContractStorageTrieNodeWithProof
-			err := c14zdes(b, v.Deserialize)
+			var err error
+			for _, b := range bs { // decoded one after the other into the SAME object
+				err = c14zdes(b, v.Deserialize)
+			}
 			return []c14field{{l: c14unproof(v.StorageProof)}, {l: c14unproof(v.AccountProof)}, {b: cp(v.BlockHash[:])}}, err
 		}})
 	c14reg(&c14type{name: "BytecodeWithProof", tableAt: -1, fixOffs: []int{0, 4}, fields: []c14fs{{name: "Code", kind: 'B', max: 32768}, prf("AccountProof"), b32("BlockHash")},
@@ -277,18 +346,24 @@ func c14initMore() {
 			v := state.ContractBytecodeWithProof{Code: state.ContractByteCode(f[0].b), AccountProof: c14proof(f[1].l), BlockHash: root32(f[2].b)}
 			return c14zser(v.Serialize)
 		},
-		dec: func(b []byte) ([]c14field, error) {
+		dec2: func(bs ...[]byte) ([]c14field, error) {
 			var v state.ContractBytecodeWithProof
-			err := c14zdes(b, v.Deserialize)
+			var err error
+			for _, b := range bs { // decoded one after the other into the SAME object
+				err = c14zdes(b, v.Deserialize)
+			}
 			return []c14field{{b: []byte(v.Code)}, {l: c14unproof(v.AccountProof)}, {b: cp(v.BlockHash[:])}}, err
 		}})
 	c14reg(&c14type{name: "HistSummariesKey", tableAt: -1, fields: []c14fs{{name: "Epoch", kind: 'N', bits: 64}},
 		enc: func(f []c14field) ([]byte, error) {
 			return c14zser(tbeacon.HistoricalSummariesWithProofKey{Epoch: f[0].n}.Serialize)
 		},
-		dec: func(b []byte) ([]c14field, error) {
+		dec2: func(bs ...[]byte) ([]c14field, error) {
 			var v tbeacon.HistoricalSummariesWithProofKey
-			err := c14zdes(b, v.Deserialize)
+			var err error
+			for _, b := range bs { // decoded one after the other into the SAME object
+				err = c14zdes(b, v.Deserialize)
+			}
 			return []c14field{{n: v.Epoch}}, err
 		}})
 	// ---- history block bodies and the epoch accumulator (fastssz)
@@ -298,9 +373,12 @@ func c14initMore() {
 		enc: func(f []c14field) ([]byte, error) {
 			return (&hnet.BlockBodyLegacy{Transactions: f[0].l, Uncles: f[1].b}).MarshalSSZ()
 		},
-		dec: func(b []byte) ([]c14field, error) {
+		dec2: func(bs ...[]byte) ([]c14field, error) {
 			var v hnet.BlockBodyLegacy
-			err := v.UnmarshalSSZ(b)
+			var err error
+			for _, b := range bs { // decoded one after the other into the SAME object
+				err = v.UnmarshalSSZ(b)
+			}
 			return []c14field{{l: v.Transactions}, {b: v.Uncles}}, err
 		}})
 	c14reg(&c14type{name: "BodyShanghai", tableAt: 12, fixOffs: []int{0, 4, 8},
@@ -308,9 +386,12 @@ func c14initMore() {
 		enc: func(f []c14field) ([]byte, error) {
 			return (&hnet.PortalBlockBodyShanghai{Transactions: f[0].l, Uncles: f[1].b, Withdrawals: f[2].l}).MarshalSSZ()
 		},
-		dec: func(b []byte) ([]c14field, error) {
+		dec2: func(bs ...[]byte) ([]c14field, error) {
 			var v hnet.PortalBlockBodyShanghai
-			err := v.UnmarshalSSZ(b)
+			var err error
+			for _, b := range bs { // decoded one after the other into the SAME object
+				err = v.UnmarshalSSZ(b)
+			}
 			return []c14field{{l: v.Transactions}, {b: v.Uncles}, {l: v.Withdrawals}}, err
 		}})
 	c14reg(&c14type{name: "EpochAcc", tableAt: -1, small: true,
@@ -318,9 +399,12 @@ func c14initMore() {
 		enc: func(f []c14field) ([]byte, error) {
 			return (&hnet.EpochAccumulator{HeaderRecords: f[0].l}).MarshalSSZ()
 		},
-		dec: func(b []byte) ([]c14field, error) {
+		dec2: func(bs ...[]byte) ([]c14field, error) {
 			var v hnet.EpochAccumulator
-			err := v.UnmarshalSSZ(b)
+			var err error
+			for _, b := range bs { // decoded one after the other into the SAME object
+				err = v.UnmarshalSSZ(b)
+			}
 			return []c14field{{l: v.HeaderRecords}}, err
 		}})
 	// ---- prover-side containers of package history (fastssz)
@@ -329,9 +413,12 @@ func c14initMore() {
 		enc: func(f []c14field) ([]byte, error) {
 			return (&hnet.BlockHeaderWithProof{Header: f[0].b, Proof: f[1].b}).MarshalSSZ()
 		},
-		dec: func(b []byte) ([]c14field, error) {
+		dec2: func(bs ...[]byte) ([]c14field, error) {
 			var v hnet.BlockHeaderWithProof
-			err := v.UnmarshalSSZ(b)
+			var err error
+			for _, b := range bs { // decoded one after the other into the SAME object
+				err = v.UnmarshalSSZ(b)
+			}
 			return []c14field{{b: v.Header}, {b: v.Proof}}, err
 		}})
 	c14reg(&c14type{name: "SSZProof", tableAt: -1, fixOffs: []int{32},
@@ -339,9 +426,12 @@ func c14initMore() {
 		enc: func(f []c14field) ([]byte, error) {
 			return (&hnet.SSZProof{Leaf: f[0].b, Witnesses: f[1].l}).MarshalSSZ()
 		},
-		dec: func(b []byte) ([]c14field, error) {
+		dec2: func(bs ...[]byte) ([]c14field, error) {
 			var v hnet.SSZProof
-			err := v.UnmarshalSSZ(b)
+			var err error
+			for _, b := range bs { // decoded one after the other into the SAME object
+				err = v.UnmarshalSSZ(b)
+			}
 			return []c14field{{b: v.Leaf}, {l: v.Witnesses}}, err
 		}})
 	c14reg(&c14type{name: "MasterAcc", tableAt: -1, fixOffs: []int{0},
@@ -349,18 +439,24 @@ func c14initMore() {
 		enc: func(f []c14field) ([]byte, error) {
 			return (&hnet.MasterAccumulator{HistoricalEpochs: f[0].l}).MarshalSSZ()
 		},
-		dec: func(b []byte) ([]c14field, error) {
+		dec2: func(bs ...[]byte) ([]c14field, error) {
 			var v hnet.MasterAccumulator
-			err := v.UnmarshalSSZ(b)
+			var err error
+			for _, b := range bs { // decoded one after the other into the SAME object
+				err = v.UnmarshalSSZ(b)
+			}
 			return []c14field{{l: v.HistoricalEpochs}}, err
 		}})
 	c14reg(&c14type{name: "CustomPayload", tableAt: -1, fields: []c14fs{{name: "Payload", kind: 'B', max: 1100}},
 		enc: func(f []c14field) ([]byte, error) {
 			return c14zser(pingext.CustomPayloadExtensionsFormatPayload(f[0].b).Serialize)
 		},
-		dec: func(b []byte) ([]c14field, error) {
+		dec2: func(bs ...[]byte) ([]c14field, error) {
 			var v pingext.CustomPayloadExtensionsFormatPayload
-			err := c14zdes(b, v.Deserialize)
+			var err error
+			for _, b := range bs { // decoded one after the other into the SAME object
+				err = c14zdes(b, v.Deserialize)
+			}
 			return []c14field{{b: []byte(v)}}, err
 		}})
 }
